@@ -1,0 +1,41 @@
+//go:build verif
+
+package queue
+
+import "time"
+
+// VerifWheelSlot is one pending entry of the queue's time wheel: the message it belongs to and the
+// time the queue handed to the wheel for it.
+type VerifWheelSlot struct {
+	ID   string
+	Time time.Time
+}
+
+// VerifWheelSlots lists what is waiting on the queue's time wheel right now (nil before the wheel
+// exists, or while the list is locked by somebody else). Read-only; an observer must not be able to
+// crash on whatever state the wheel is in, so anything unexpected reads as "nothing to see".
+func (q *Queue) VerifWheelSlots() (out []VerifWheelSlot) {
+	tw := q.wheel
+	if tw == nil || !tw.slotsLock.TryLock() {
+		return nil
+	}
+	defer tw.slotsLock.Unlock()
+	defer func() {
+		if recover() != nil {
+			out = nil
+		}
+	}()
+	if tw.slots == nil {
+		return nil
+	}
+	for e := tw.slots.Front(); e != nil; e = e.Next() {
+		slot, ok := e.Value.(TimeSlot)
+		if !ok {
+			continue
+		}
+		if qs, ok := slot.Value.(queueSlot); ok {
+			out = append(out, VerifWheelSlot{ID: qs.ID, Time: slot.Time})
+		}
+	}
+	return out
+}
